@@ -279,6 +279,18 @@ class Evaluator:
             raise Unsupported("constant %r" % (e.value,))
         if isinstance(e, ast.Name):
             if e.id not in self.env:
+                mod = self.fn.module
+                if e.id in mod.assigns:
+                    # a module-level constant
+                    from .model import fold, NotConst
+
+                    try:
+                        v = fold(mod.assigns[e.id], mod)
+                    except NotConst:
+                        raise Unsupported("module-level name `%s` is not a constant (line %d)" % (e.id, e.lineno))
+                    if isinstance(v, bool) or not isinstance(v, int):
+                        raise Unsupported("module-level constant `%s` is not an integer" % e.id)
+                    return tconst(v)
                 raise Unsupported("name `%s` read before assignment at line %d" % (e.id, e.lineno))
             return self.env[e.id]
         if isinstance(e, ast.Tuple):
@@ -431,6 +443,30 @@ class Evaluator:
                 v = self.ev(e.args[0])
                 if isinstance(v, T):
                     return v
+            helper = self.fn.module.functions.get(f.id)
+            if helper is not None and helper is not self.fn and getattr(self, "_depth", 0) < 3:
+                # a module-level helper (e.g. an extracted rotate / scramble step): evaluated in line
+                self.calls.discard(f.id)
+                args = [self.ev(a) for a in e.args]
+                kw = {k.arg: self.ev(k.value) for k in e.keywords if k.arg}
+                env = {}
+                pos = helper.pos_params()
+                for p_, a in zip(pos, args):
+                    env[p_.name] = a
+                env.update(kw)
+                for p_ in helper.params:
+                    if p_.name not in env and p_.has_default:
+                        env[p_.name] = Evaluator(helper, {}).ev(p_.default)
+                sub = Evaluator(helper, env, self.len_low2)
+                sub._depth = getattr(self, "_depth", 0) + 1
+                sub.index_hook = getattr(self, "index_hook", None)
+                body = [st for st in helper.node.body if not (isinstance(st, ast.Expr) and isinstance(st.value, ast.Constant))]
+                res = sub.block(body)
+                self.width_violations += sub.width_violations
+                self.calls |= sub.calls
+                if res is None or res[1] is None:
+                    raise Unsupported("helper %s returns nothing" % f.id)
+                return res[1]
             raise Unsupported("call of %s at line %d" % (f.id, e.lineno))
         if isinstance(f, ast.Attribute):
             self.calls.add("." + f.attr)
